@@ -16,7 +16,8 @@ BIN = ["add", "sub", "mul", "udiv", "sdiv", "__mod__", "bitwise_or", "bitwise_an
        "lshift", "rshift_logical", "rshift_arithmetic"]
 UN = ["neg", "__neg__", "bitwise_not", "__invert__"]
 CMP = ["SLT", "SLE", "SGT", "SGE", "ULT", "ULE", "UGT", "UGE", "eq"]
-FUNCTIONS = [f"StridedInterval.{n}" for n in BIN + UN + CMP]
+RESIZE = ["extract", "zero_extend", "sign_extend"]
+FUNCTIONS = [f"StridedInterval.{n}" for n in BIN + UN + CMP + RESIZE + ["concat", "cast_low", "rshift_logical (inside extract)"]]
 TRUSTED = ["z3 4.13 (decides the VCs)", "CPython 3.12 executes the function bodies",
            "contract of math.gcd / math.lcm (vf/contracts/si.py:MathContract)",
            "contract of StridedInterval._minimal_common_integer_splitted (float Diophantine solver; checked exhaustively up to width 4, bounded)"]
@@ -43,6 +44,12 @@ def tasks(tier, seed=0):
             out.append(task(M, "ob_unary", f"si.{op}/gamma@w{w}", ["C21"], op=op, w=w, tier=tier, replay="vf.contracts.si:replay_transfer"))
         for op in CMP:
             out.append(task(M, "ob_compare", f"si.{op}/gamma@w{w}", ["C21"], op=op, w=w, tier=tier, replay="vf.contracts.si:replay_transfer"))
+    for w in ws:
+        for op in RESIZE:     # integer parameters (bit positions, new length w..w+2) enumerated completely per width
+            out.append(task(M, "ob_resize", f"si.{op}/gamma@w{w}", ["C21"], op=op, w=w, tier=tier, replay="vf.contracts.si:replay_resize"))
+    cc = [(1, 1), (1, 2), (2, 1), (1, 3), (3, 1)] + ([] if tier == "quick" else [(2, 2), (2, 3), (3, 2), (4, 1), (1, 4)])
+    for w, wb in cc:          # concat: high operand w bits, low operand wb bits
+        out.append(task(M, "ob_resize", f"si.concat/gamma@w{w}+{wb}", ["C21"], op="concat", w=w, wb=wb, tier=tier, replay="vf.contracts.si:replay_resize"))
     out.append(task("vf.bounded.si_enum", "mci", "si._minimal_common_integer_splitted/contract-bounded", ["C21", "C22"], kind="bounded",
                     replay="vf.bounded.si_enum:replay_mci", wmax=4 if tier == "quick" else 5, budget_s=100 if tier == "quick" else 1500))
     return out
